@@ -13,10 +13,10 @@ var errScripted = errors.New("scripted stream failure")
 // Script describes how an underlying stream behaves: what it holds, how it chunks, how it ends.
 type Script struct {
 	Data        kit.BStr `json:"data"`
-	Chunks      []int    `json:"chunks"`         // cycle of read sizes; 0 = a zero-length read without error
-	EOFWithData bool     `json:"eof_with_data"`  // the last bytes are returned together with io.EOF
-	FailAt      int      `json:"fail_at"`        // -1: ends with EOF; k: sticky error once k bytes were delivered
-	Closable    bool     `json:"closable"`       // the stream also implements io.Closer
+	Chunks      []int    `json:"chunks"`        // cycle of read sizes; 0 = a zero-length read without error
+	EOFWithData bool     `json:"eof_with_data"` // the last bytes are returned together with io.EOF
+	FailAt      int      `json:"fail_at"`       // -1: ends with EOF; k: sticky error once k bytes were delivered
+	Closable    bool     `json:"closable"`      // the stream also implements io.Closer
 }
 
 // reader is the scripted io.Reader. Terminal conditions are sticky.
@@ -96,8 +96,8 @@ func (s Script) fails() bool { return s.FailAt >= 0 }
 
 // Sink describes the scripted io.Writer.
 type Sink struct {
-	FailAt   int  `json:"fail_at"`  // -1: accepts everything; k: accepts k bytes, then fails (sticky)
-	Closable bool `json:"closable"` // also implements io.Closer
+	FailAt   int  `json:"fail_at"`   // -1: accepts everything; k: accepts k bytes, then fails (sticky)
+	Closable bool `json:"closable"`  // also implements io.Closer
 	MaxWrite int  `json:"max_write"` // 0: unlimited
 }
 
